@@ -136,8 +136,19 @@ func vfOrig(v vfVariant) (Bundle, error) {
 		add(5, ReplicateBlock, NewHopCountBlock(32))
 		add(3, 0, NewBundleAgeBlock(77))
 		add(17, ReplicateBlock, NewGenericExtensionBlock([]byte{9, 8, 7}, 223))
+	case 5: // three blocks that are replicated into every fragment
+		add(2, ReplicateBlock, NewHopCountBlock(32))
+		add(3, ReplicateBlock, NewBundleAgeBlock(9))
+		add(4, ReplicateBlock, NewPreviousNodeBlock(MustNewEndpointID("dtn://prev/")))
+	case 6: // five of them, and one that stays in the first fragment
+		add(2, ReplicateBlock, NewHopCountBlock(32))
+		add(3, ReplicateBlock, NewBundleAgeBlock(9))
+		add(4, ReplicateBlock, NewPreviousNodeBlock(MustNewEndpointID("ipn:9.9")))
+		add(5, ReplicateBlock, NewGenericExtensionBlock([]byte{1}, 222))
+		add(6, 0, NewGenericExtensionBlock([]byte{2, 2}, 223))
+		add(7, ReplicateBlock, NewGenericExtensionBlock([]byte{3, 3, 3}, 224))
 	}
-	if v.ZeroTs && v.Mix != 2 && v.Mix != 3 && v.Mix != 4 {
+	if v.ZeroTs && v.Mix != 2 && v.Mix != 3 && v.Mix != 4 && v.Mix != 5 && v.Mix != 6 {
 		add(6, 0, NewBundleAgeBlock(0))
 	}
 	add(1, 0, NewPayloadBlock(vfData(v.Payload)))
@@ -236,7 +247,7 @@ func TestVerifC10Replay(t *testing.T) {
 			vhEmit(vhRec{"k": "infra", "v": err.Error()})
 			return
 		}
-		variant := vfVariant{Mix: idx % 5, PCrc: (idx / 2) % 3, CCrc: idx % 3, Ipn: idx%5 == 0, Payload: h.N}
+		variant := vfVariant{Mix: idx % 7, PCrc: (idx / 2) % 3, CCrc: idx % 3, Ipn: idx%5 == 0, Payload: h.N}
 		orig, err := vfOrig(variant)
 		if err != nil {
 			vhEmit(vhRec{"k": "infra", "v": "cannot build original: " + err.Error()})
@@ -486,7 +497,7 @@ func TestVerifFragRecord(t *testing.T) {
 	}
 	var jobs []job
 	for _, p := range plens {
-		for mix := 0; mix < 5; mix++ {
+		for mix := 0; mix < 7; mix++ {
 			for k := 0; k < 3; k++ { // crc / endpoint combination
 				v := vfVariant{Payload: p, Mix: mix, PCrc: (k + mix) % 3, CCrc: (k + p) % 3, Ipn: (k+p+mix)%4 == 0}
 				if p > maxSmall && k > 0 {
